@@ -9,6 +9,7 @@ import (
 
 	"github.com/jotaen/klog/klog/parser"
 	"verifharness/core"
+	"verifharness/gen"
 	"verifharness/obs"
 	"verifharness/ref"
 )
@@ -92,3 +93,24 @@ func trunc(s string, n int) string {
 }
 
 type timeT = time.Time
+
+// splitAtRecord writes the document as two files, cut in front of a record's headline; evaluating both files in
+// order must give what evaluating the single file gives. ok=false if the document has fewer than two records.
+func splitAtRecord(e *core.Env, r *core.Rand, d *gen.Out, base string) (paths []string, ok bool) {
+	ls := ref.SplitLines(d.Text)
+	if len(d.Doc.Recs) < 2 || len(ls) != len(d.Lines) {
+		return nil, false
+	}
+	k := 1 + r.Intn(len(d.Doc.Recs)-1)
+	off := 0
+	for i, l := range ls {
+		if d.Lines[i].Kind == gen.LHeadline && d.Lines[i].Rec == k {
+			break
+		}
+		off += len(l.Text) + len(l.Ending)
+	}
+	if off <= 0 || off >= len(d.Text) {
+		return nil, false
+	}
+	return []string{writeFile(e.Dir, base+"-part1.klg", d.Text[:off]), writeFile(e.Dir, base+"-part2.klg", d.Text[off:])}, true
+}
